@@ -5,6 +5,7 @@ import (
 	"log"
 	"os"
 	"path/filepath"
+	"strconv"
 	"strings"
 )
 
@@ -15,7 +16,15 @@ import (
 // earlier but added to the list while the merge was running.
 func mergedFilename(indexDir string, oldest *Reader, n int) string {
 	stem := strings.TrimSuffix(filepath.Base(oldest.filename), ".idx")
-	return filepath.Join(indexDir, fmt.Sprintf("%s.m%04d.idx", stem, n))
+	// an index that was merged before is named after its own oldest input already,
+	// count on from its number to stay behind the indexes in front of it
+	if i := strings.Index(stem, ".m"); i >= 0 {
+		if merged, err := strconv.Atoi(stem[i+2:]); err == nil {
+			n += merged + 1
+		}
+		stem = stem[:i]
+	}
+	return filepath.Join(indexDir, fmt.Sprintf("%s.m%06d.idx", stem, n))
 }
 
 func Merge(indexDir string, indexes []*Reader) ([]*Reader, error) {
